@@ -1,3 +1,83 @@
-(* C41 — theorems (filled in below) *)
+(* C41 — Checkout stays inside the worktree and reproduces the index.
+
+   Model: GixV.C41.Model (decision logic of gix_worktree_state::checkout, single thread, on an abstract
+   unix file system with symbolic links; ROOT is the destination directory, [trace] lists the physical
+   key of every system call, [fs] is the resulting file system).  [chain f0 ROOT] says that the
+   destination and its parent are real directories in the initial file system f0 — everything else in
+   f0 (symbolic links anywhere, files in the way, a non-empty destination) is arbitrary, as are the
+   index (any paths, modes, contents, duplicates, file/directory conflicts) and the options. *)
+From Coq Require Import List Bool.
 From GixV.Base Require Import Bytes Outcome.
-From GixV.C41 Require Import Model.
+From GixV.C41 Require Import Model Run ProofsFs ProofsOps ProofsCheckout ProofsTop.
+Import ListNotations.
+
+(* every system call acts on a physical path ROOT/n1/…/nk (k >= 1) reached without following any
+   symbolic link, where every ni passed gix-validate *)
+Theorem every_fs_operation_is_confined : forall o index f0,
+  chain f0 ROOT -> Forall Confined (trace (final o index f0)).
+Proof. exact confinement. Qed.
+
+(* what a confined key is: strictly below ROOT, plain names only (no "", ".", "..", "/"), no `.git`
+   in any letter case at any depth *)
+Theorem confined_keys_are_plain_paths_below_root : forall k, Confined k ->
+  exists names, k = ROOT ++ names /\ names <> [] /\ Forall plain_name names.
+Proof. exact confined_meaning. Qed.
+Theorem confined_keys_are_strictly_below_root : forall k, Confined k -> is_prefix ROOT k = true /\ k <> ROOT.
+Proof. exact confined_below_root. Qed.
+Theorem confined_keys_avoid_dotgit : forall k c rest, Confined k -> k = ROOT ++ c :: rest -> ci_eqb c DOTGIT = false.
+Proof. exact confined_not_dotgit. Qed.
+
+(* the resulting file system: nothing outside the destination is created, modified or removed … *)
+Theorem nothing_outside_the_destination_changes : forall o index f0 k',
+  chain f0 ROOT -> is_prefix ROOT k' = false ->
+  fs_get (fs (final o index f0)) k' = fs_get f0 k'.
+Proof. exact nothing_outside_root_changes. Qed.
+(* … the destination itself stays a directory (it is never unlinked or replaced by a link) … *)
+Theorem destination_stays_a_directory : forall o index f0,
+  chain f0 ROOT -> fs_get (fs (final o index f0)) ROOT = Some NDir.
+Proof. exact root_is_kept. Qed.
+(* … and nothing at or below ROOT/.git (any letter case) is created, modified or removed *)
+Theorem dotgit_is_never_written : forall o index f0 c rest,
+  chain f0 ROOT -> ci_eqb c DOTGIT = true ->
+  fs_get (fs (final o index f0)) (ROOT ++ c :: rest) = fs_get f0 (ROOT ++ c :: rest).
+Proof. exact dotgit_is_untouched. Qed.
+(* the general frame statement the three above are instances of *)
+Theorem frame_for_everything_outside_confined_keys : forall o index f0 k',
+  chain f0 ROOT -> Outside k' -> fs_get (fs (final o index f0)) k' = fs_get f0 k'.
+Proof. exact frame_outside. Qed.
+
+(* the invariant behind it: before every entry, all directories above the stack's current path are
+   real directories below ROOT with validated names *)
+Theorem stack_invariant_holds_initially : forall f0, chain f0 ROOT -> INV0 (init_st f0).
+Proof. exact invariant_initially. Qed.
+Theorem stack_invariant_is_kept_by_every_entry : forall o e s, INV0 s -> INV0 (fst (entry_checkout o e s)).
+Proof. exact invariant_kept. Qed.
+
+(* content: an entry reported as written sits at ROOT/<components of its path> and holds the blob:
+   a regular file with the blob's bytes, or a symbolic link whose target is the blob *)
+Theorem written_entry_has_index_content : forall o e s, INV0 s -> snd (entry_checkout o e s) = EOk ->
+  map Normal (cur (fst (entry_checkout o e s))) = components (epath e)
+  /\ written o e (fst (entry_checkout o e s)).
+Proof. exact written_entry. Qed.
+
+(* ---- non-vacuity ---- *)
+Example the_sandbox_satisfies_the_hypothesis : chain fs0 ROOT.
+Proof. exact fs0_root. Qed.
+
+Definition hostile_index : list entry :=
+  [ {| emode_of := MLink; epath := bs "a"; edata := bs "../out" |};
+    {| emode_of := MLink; epath := bs "a/b"; edata := bs "x" |};
+    {| emode_of := MFile; epath := bs ".git/config"; edata := bs "evil" |};
+    {| emode_of := MExec; epath := bs "d/e"; edata := bs "E" |} ].
+Definition all_on : opts :=
+  {| overwrite := true; empty := false; keep_going := true; cap_symlink := true; cap_exec := true |}.
+(* the index that escaped before fix 872f8a2e1: `a` -> ../out, then `a/b` *)
+Example hostile_index_stays_inside :
+  let s := final all_on hostile_index fs0 in
+  fs_get (fs s) [bs "S"; bs "out"; bs "b"] = None
+  /\ fs_get (fs s) (ROOT ++ [bs "a"; bs "b"]) = Some (NLink (bs "x"))
+  /\ fs_get (fs s) (ROOT ++ [bs "d"; bs "e"]) = Some (NFile true (bs "E"))
+  /\ length (trace s) = 9.
+Proof. vm_compute. repeat split; reflexivity. Qed.
+Example a_confined_key : Confined (ROOT ++ [bs "d"; bs "e"]).
+Proof. exists [bs "d"; bs "e"]. repeat split; try discriminate. repeat constructor. Qed.
